@@ -98,7 +98,7 @@ def patch_namespace():
 class Namespace(argparse.Namespace):
     """Extension of argparse's Namespace to support nesting and subscript access."""
 
-    def __init__(self, *args, **kwargs):
+    def __init__(self, /, *args, **kwargs):
         """Initializer for Namespace objects.
 
         Instantiating a Namespace with initial values most commonly is done by
@@ -107,7 +107,8 @@ class Namespace(argparse.Namespace):
         ``dict`` object can be given.
         """
         if len(args) == 0:
-            super().__init__(**kwargs)
+            for key, val in kwargs.items():  # not via argparse.Namespace.__init__, for which "self" is not a valid key
+                setattr(self, key, val)
         else:
             if len(kwargs) != 0 or len(args) != 1 or not isinstance(args[0], (argparse.Namespace, dict)):
                 raise ValueError("Expected a single positional parameter of type Namespace or dict.")
@@ -198,6 +199,8 @@ class Namespace(argparse.Namespace):
     def __delitem__(self, key: str) -> None:
         """Deletes an item from a possibly nested namespace."""
         leaf_key, parent_ns, _ = self._parse_key(key)
+        if not isinstance(parent_ns, Namespace):
+            raise NSKeyError(f'Key "{key}" not found in namespace.')
         del parent_ns.__dict__[leaf_key]
 
     def __contains__(self, key: str) -> bool:
